@@ -15,7 +15,8 @@ PROPERTY_ID = "C13"
 RULE = (
     "Exhaustive: every string over {a,b,CR,LF} up to length 7 (quick) / 9 (thorough) x all 39 width lists with 1-3 "
     "fields of width 1-3 x the 5 line-delimiter settings, read through fixed_rows from a StringIO (newline '' or the "
-    "default) or from an object that offers nothing but read(size). "
+    "default), from a StringIO whose first line the caller has already consumed, or from an object that offers nothing "
+    "but read(size); every third width list gives all its fields the same name. "
     "Hypothesis: longer well-formed files (records over a wider alphabet incl. blanks and non-ASCII, joined by "
     "permitted delimiters, final one optional) unchanged and with one character deleted / inserted / replaced at "
     "every offset, read from a stream, by path, from a file opened from a descriptor, from a pipe and from a bare "
@@ -119,15 +120,16 @@ class _OnlyRead(object):
 
 # where the characters come from: a StringIO without / with the default newline setting, a file named by its path,
 # a file opened from a descriptor (its name is a number), a pipe (it cannot seek or tell), a bare read() object
-SOURCES = ("stream", "path", "stream-default", "fd", "pipe", "reader-object")
+SOURCES = ("stream", "path", "stream-default", "fd", "pipe", "reader-object", "stream-advanced")
 
 
-_CHEAP_SOURCES = ("stream", "stream-default", "reader-object")
+_CHEAP_SOURCES = ("stream", "stream-default", "reader-object", "stream-advanced")
 
 
 def judge(sub, text, widths, setting, via="stream", encoding="utf-8", tmpdir=None):
     """Run fixed_rows and compare with the oracle. Returns number of rows or None on error."""
-    fields = [("f%d" % i, w) for i, w in enumerate(widths)]
+    # names say nothing about the layout: every third width list uses one name for all its fields
+    fields = [("f%d" % i if (len(text) + len(widths)) % 3 else "filler", w) for i, w in enumerate(widths)]
     total = sum(widths)
     case = {"text": text, "widths": list(widths), "setting": setting, "via": via, "encoding": encoding}
     opened = None
@@ -138,6 +140,10 @@ def judge(sub, text, widths, setting, via="stream", encoding="utf-8", tmpdir=Non
             source = io.StringIO(text)  # newline="\n": reading translates nothing either
         elif via == "reader-object":
             source = _OnlyRead(text)
+        elif via == "stream-advanced":
+            # the caller has already consumed a title line: what is left of the stream is the input
+            source = io.StringIO("title line\n" + text, newline="")
+            source.readline()
         elif via == "pipe":
             read_end, write_end = os.pipe()
             os.write(write_end, text.encode(encoding))
@@ -203,7 +209,7 @@ def _exhaustive_shard(args):
             for widths in WIDTH_LISTS:
                 for setting in SETTINGS:
                     before = len(sub.fails)
-                    n_rows = judge(sub, text, widths, setting, _CHEAP_SOURCES[(number + len(widths)) % 3])
+                    n_rows = judge(sub, text, widths, setting, _CHEAP_SOURCES[(number + len(widths)) % 4])
                     evals += 1
                     if has_break or (n_rows or 0) >= 2:
                         nontrivial += 1
